@@ -196,6 +196,11 @@ class Verifier(Calls):
                                     res.append(s3)
                                 else:
                                     raise Unsupported('record store with non-literal key', stmt)
+                        elif isinstance(b, (VMap, VAny)):
+                            m = self.as_map(s2, b, stmt)
+                            for s3, k in self.force(s2, idx):
+                                self.map_store(s3, m, k, v, stmt)
+                                res.append(s3)
                         else:
                             raise Unsupported('subscript store on %s' % b.kind, stmt)
                     except PathDead:
@@ -255,8 +260,23 @@ class Verifier(Calls):
         return res
 
     def st_Try(self, stmt, st):
-        if stmt.finalbody or stmt.orelse:
-            raise Unsupported('try/finally or try/else', stmt)
+        if stmt.orelse:
+            raise Unsupported('try/else', stmt)
+        if stmt.finalbody:
+            # try/finally: the final block runs on EVERY way out of the protected statements (normal, return,
+            # break/continue, exception) and the original outcome continues unless the final block itself
+            # leaves abnormally
+            inner = ast.Try(body=stmt.body, handlers=stmt.handlers, orelse=[], finalbody=[])
+            ast.copy_location(inner, stmt)
+            outs0 = self.st_Try(inner, st) if stmt.handlers else self.exec_block(stmt.body, st)
+            res = []
+            for s, kind, v in outs0:
+                for s2, k2, v2 in self.exec_block(stmt.finalbody, s):
+                    if k2 == 'next':
+                        res.append((s2, kind, v))
+                    else:
+                        res.append((s2, k2, v2))
+            return res
         outs = self.exec_block(stmt.body, st)
         res = []
         for s, kind, v in outs:
